@@ -13,12 +13,18 @@
    it).  Unlocking is C12_released; "stage files are written only after the whole traversal
    succeeded" is by construction of System.step (a failed step returns the old world:
    C07_failed_step_unchanged).
-   proof, partial: nested directories are covered by the correspondence check only (an injected
-   EIO / ENOSPC / EACCES at EVERY mutating system call of the real binary, then a retry; and
-   un-committable entries at every position, then removal and retry); a failing call has no
-   partial effect (real ENOSPC in the middle of a write may). *)
+   Nested directories of any depth: C04_retry_nested (the retry from any [tree_state] of the tree
+   returns the same node, the same recorded artifact and the same objects) under the premise
+   [olds_fixed], and C04_retry_nested_inv with no premise on the old manifests under the
+   invariants commit preserves on the final cache; the statement with the naive premise "old
+   manifests read the same" is refuted by a closed witness (a file whose bytes are a manifest).
+   proof, partial: [tree_state] is a hand-written characterisation of the states a failed nested
+   commit can leave (as flat_state is), not derived from the cut semantics; the correspondence
+   check injects EIO / ENOSPC / EACCES at EVERY mutating system call of the real binary, then
+   retries, and places un-committable entries at every position; a failing call has no partial
+   effect (real ENOSPC in the middle of a write may). *)
 From Coq Require Import NArith List Bool.
-From DudV Require Import Base.Bytes Model.Fs Model.Cache Model.Crash Proofs.CacheDefs Proofs.CrashProofs.
+From DudV Require Import Base.Bytes Model.Fs Model.Cache Model.Crash Proofs.CacheDefs Proofs.CommitProofs Proofs.CrashProofs Proofs.NestedRetryProofs.
 Import ListNotations.
 
 Theorem C04_fail_is_cut :
@@ -74,3 +80,26 @@ Theorem C04_norollback_refuted :
     exists c', In (None, c') (file_commit_fail_states_norollback H Link true b c).
 Proof. exact C04_norollback_entry_missing. Qed.
 Print Assumptions C04_norollback_refuted.
+
+(* nested directories, any depth, both strategies *)
+Theorem C04_retry_nested :
+  forall (H : bytes -> bytes) st a n n1 c c1 nf cf af,
+    H_inj H -> cache_ok H c -> keyed H c1 -> cache_le c c1 -> cache_le c1 cf ->
+    (is_dir n = true -> old_contents a c1 = old_contents a c) ->
+    tree_state H st c a n n1 -> olds_fixed c cf a n -> resolved c1 n1 ->
+    commit_node H a n c st = Ok (nf, cf, af) ->
+    exists cf1, commit_node H a n1 c1 st = Ok (nf, cf1, af) /\
+                cache_le cf cf1 /\ cache_le cf1 cf.
+Proof. exact C04_retry_nested. Qed.
+Print Assumptions C04_retry_nested.
+
+Theorem C04_retry_nested_inv :
+  forall (H : bytes -> bytes) st a n n1 c c1 nf cf af,
+    H_inj H -> cache_ok H c -> keyed H c1 -> cache_le c c1 -> cache_le c1 cf ->
+    man_plain cf -> man_closed cf -> art_hist_ok cf a ->
+    tree_state2 H st (a_skip a) (a_norec a) n n1 -> resolved c1 n1 ->
+    commit_node H a n c st = Ok (nf, cf, af) ->
+    exists cf1, commit_node H a n1 c1 st = Ok (nf, cf1, af) /\
+                cache_le cf cf1 /\ cache_le cf1 cf.
+Proof. exact C04_retry_nested_inv. Qed.
+Print Assumptions C04_retry_nested_inv.
